@@ -1017,13 +1017,13 @@ func genLsets(r *h.Rng, n int, many bool) []lset {
 	return out
 }
 
-func genCase(c *h.Ctx, id string, thorough bool) {
+func genCase(c *h.Ctx, id string, thorough, forceMany bool) {
 	r := c.Rng
 	c.Case(id)
 	e := &env{c: c, dir: h.TempDir("verif-block-")}
 	defer e.close()
-	real := r.Chance(30)
-	many := !real && r.Chance(8)
+	real := r.Chance(30) && !forceMany
+	many := forceMany || (!real && r.Chance(8))
 	key := fmt.Sprintf("real=%v many=%v", real, many)
 
 	// series plan
@@ -1549,7 +1549,8 @@ func main() {
 		if i%4 == 3 {
 			genWriterCase(c, fmt.Sprintf("w%d-%d", c.Seed, i), c.Tier == "thorough")
 		} else {
-			genCase(c, fmt.Sprintf("b%d-%d", c.Seed, i), c.Tier == "thorough")
+			// every 8th case is a block with 30-75 series: more than symbolFactor symbols / label values
+			genCase(c, fmt.Sprintf("b%d-%d", c.Seed, i), c.Tier == "thorough", i%8 == 5)
 		}
 	}
 	c.Finish()
